@@ -776,7 +776,8 @@ class EvolutionarySolver(RandomSearchSolver):
         for edge in edges:
             possible_edges = set(edges) - circuit.find_incompatible_edges(edge)
 
-            for another_edge in possible_edges:
+            # iterate in a fixed order: the order of a set of tuples containing strings depends on the hash seed
+            for another_edge in sorted(possible_edges, key=str):
                 edge_pair.append((edge, another_edge))
 
         return edge_pair
@@ -813,7 +814,8 @@ class EvolutionarySolver(RandomSearchSolver):
         for edge in e_edges:
             possible_edges = set(p_edges) - circuit.find_incompatible_edges(edge)
 
-            for another_edge in possible_edges:
+            # iterate in a fixed order: the order of a set of tuples containing strings depends on the hash seed
+            for another_edge in sorted(possible_edges, key=str):
                 edge_pair.append((edge, another_edge))
 
         return edge_pair
